@@ -34,6 +34,13 @@ def ev(items, x):
 
 
 def feasible_x(calls, x, spin):
+    # a label that occurs only in constraints that added nothing (always satisfied) is not a variable of the model;
+    # such a constraint holds whatever value the label takes, so any default will do
+    alll = {l for c in calls if c["t"] == "cmp" for k, _ in G.unjraw(c["c"]["P"]) for l in k}
+    alll |= {C.dec(o["l"]) for c in calls if c["t"] != "cmp" for o in c["c"]["ops"] if o["t"] == "lbl"}
+    x = dict(x)
+    for l in alll:
+        x.setdefault(l, 1 if spin else 0)
     for c in calls:
         if c["t"] == "cmp":
             P = [(k, v) for k, v in G.unjraw(c["c"]["P"])]
@@ -147,8 +154,19 @@ def run_impl(case):
             out["checks"].append("%s: %r has objective %s, constrained optimum is %s" % (what, xx, ev(objf, xx), opt))
     # (a) the model's own brute force
     snap = C.snapshot_unordered(H)
-    sols = H.solve_bruteforce(all_solutions=True)
-    one = H.solve_bruteforce()
+    try:
+        sols = H.solve_bruteforce(all_solutions=True)
+        one = H.solve_bruteforce()
+    except KeyError as ex:
+        # the solver enumerates the model's variables and asks is_solution_valid, which evaluates every recorded constraint
+        clabs = {l for c in case["calls"] if c["t"] == "cmp" for k, _ in G.unjraw(c["c"]["P"]) for l in k}
+        missing = sorted((l for l in clabs if l not in H.variables), key=C.enc)
+        if missing:
+            out["checks"].append("solve_bruteforce() raised KeyError(%s): a recorded constraint mentions label(s) %r that are not "
+                                 "variables of the model (the constraint added no terms)" % (ex, missing))
+            out["skip"] = True
+            return out
+        raise
     if C.snapshot_unordered(H) != snap:
         raise C.PurityError("solve_bruteforce mutated the model")
     out["obj"] = None
@@ -217,6 +235,13 @@ def literal(case, out):
 
 def oracle(case, out):
     return out["checks"][:3]
+
+
+def finding_key(case, what):
+    """groups the failing inputs of one known finding (see known_findings.txt)"""
+    if what and any("that are not variables of the model (the constraint added no terms)" in w for w in what):
+        return "bruteforce-keyerror-constraint-label-not-a-variable"
+    return None
 
 
 def nontrivial(case, out):
